@@ -2,7 +2,7 @@
 From Coq Require Import String List Bool Arith.
 From PV Require Import Skeleton Lifecycle Lifecycle_proofs Xnum Select Vars Init Loop.
 From PVGen Require Import Algos Expected GenInit GenStop.
-From PVBridge Require Import AlgoBridge LifeMain InitBridge LoopBridge.
+From PVBridge Require Import AlgoBridge LifeMain DualExample InitBridge LoopBridge.
 
 (* for every optimizer pinned as fitness- and direction-blind (recomputed from the source on every run): two calls with the same
    seed, configuration and INTERNAL objective hold the same positions and internal costs after every cycle, whatever the
@@ -34,3 +34,12 @@ Proof. exact population_refine_bridge. Qed.
 Print Assumptions C12_duality.
 Print Assumptions C12_fcn_regenerated.
 Print Assumptions C12_internal_cost.
+
+(* non-vacuity and non-triviality of C12_duality: the pinned blind set is inhabited by a regenerated skeleton; two stores that agree on the inputs and differ in the
+   direction and the fitness fields hold the same positions / internal costs after 2 cycles under an oracle that adds up everything it reads; a different input does not *)
+Theorem C12_hypotheses_satisfiable :
+  exists sk, In sk all_skeletons /\ In (sk_name sk) pinned_fitness_blind /\
+    du_s1 DIn = du_s2 DIn /\ du_s1 DDir <> du_s2 DDir /\ du_s1 DFit <> du_s2 DFit /\
+    du_run sk du_s1 = du_run sk du_s2 /\ du_run sk du_s3 <> du_run sk du_s2.
+Proof. exact dual_hypotheses_satisfiable. Qed.
+Print Assumptions C12_hypotheses_satisfiable.
